@@ -89,6 +89,13 @@ theorem unicode_signs_mean : Acc.ofString "♯" = .sharp ∧ Acc.ofString "#" = 
     Acc.ofString "♭" = .flat ∧ Acc.ofString "b" = .flat ∧
     (Acc.ofString "♯").str = "#" ∧ (Acc.ofString "♭").str = "b" := by decide
 
+/-- **every sign the lexer accepts as a sharp or a flat is read as that accidental**: for each entry of the lexer's
+token table (regenerated from the source on every run) whose kind is SHARP or FLAT, the converters' reading of that
+very rune is sharp, respectively flat — no accepted sign falls through to "natural" -/
+theorem every_accepted_sign_known : ∀ e ∈ Generated.singleRuneTokens,
+    (e.2.1 = TK.SHARP → Acc.ofString (String.singleton e.1) = .sharp) ∧
+    (e.2.1 = TK.FLAT → Acc.ofString (String.singleton e.1) = .flat) := by decide
+
 /-- two accidental tokens that denote the same accidental give the same converted chord, in both modes, in
 every key — so `C♯` and `C#`, `3♭` and `3b` convert identically -/
 theorem same_accidental_same_chord (mode : Mode) (s : Scale) (h : Tok) (a a' : Tok) (sym : Option Tok) (base : Option DegreeN)
